@@ -430,6 +430,13 @@ def check_partial_candle_so_far(repo, rep, tier):
     rep.floor(rid, 500)
 
 
+def check_symbols_minute_major(repo, rep):
+    """C07 at fill hooks with several symbols: 'exactly one candle per started window' for the OTHER symbols' candles needs all symbols to
+    advance minute by minute; the fast simulator replays a whole chunk per symbol (the same construct as C02-R7)"""
+    from props.c02 import check_symbol_interleaving
+    check_symbol_interleaving(repo, rep, rid="C07-R12")
+
+
 def run(repo: Repo, rep, tier: str):
     rep.exhaustive = True
     rep.assume("sessions start and warm-up lengths are aligned to every route timeframe (stated in the property)")
@@ -444,6 +451,7 @@ def run(repo: Repo, rep, tier: str):
     rep.guarded(check_chunks_inside_session, repo, rep)
     rep.guarded(check_partial_before_execution, repo, rep)
     rep.guarded(check_partial_candle_so_far, repo, rep, tier)
+    rep.guarded(check_symbols_minute_major, repo, rep)
     rep.undecided_item("numerical equality of every stored candle at every observation time of a whole run (the per-site formulas and window arithmetic are decided)")
 
 
